@@ -183,6 +183,15 @@ pub fn merge_spec(name: &str, rewrite: Option<(bool, usize)>) -> WorldSpec {
     s.system.push(Row::new("二千", 9, 9, 2000, P_NUM).norm("二千"));
     s.system.push(Row::new("ナナ", 9, 9, 3000, P_NUM).norm("7"));
     s.system.push(Row::new("カ", 7, 7, 8000, P_KATA));
+    // a katakana word whose headword is longer than its key (merged ranges must come from the parts)
+    s.system.push(Row::new("タタ", 7, 7, 3000, P_NOUN).headword("タタタ"));
+    s.system.push(Row::new("アア", 7, 7, 3000, P_NOUN).headword("ア"));
+    // a numeral unit that is not tagged as a numeral: a merge that ends with it keeps the numeral POS
+    for r in s.system.iter_mut() {
+        if r.surface == "万" {
+            r.pos = pos_of(P_NOUN);
+        }
+    }
     if let Some((norm, min)) = rewrite {
         s.plugins["pathRewritePlugin"] = json!([join_numeric(norm), join_katakana(min, P_KATA)]);
     }
